@@ -556,9 +556,20 @@ class IterProtocol:
             atoms[(l[0], l[1].key())] = l
             atoms[(neg_lit(l)[0], neg_lit(l)[1].key())] = neg_lit(l)
 
+        def formula_lits(f, out):
+            if f[0] == "lit":
+                out.append(f[1])
+            elif f[0] in ("and", "or"):
+                for g in f[1]:
+                    formula_lits(g, out)
+
         for s2, r, newv, n0 in res:
-            imap0, _ = self.post_maps(newv, isyms, bsyms)
-            for l in s2.pc[n0:]:
+            imap0, bmap0 = self.post_maps(newv, isyms, bsyms)
+            # tests whose outcome is stored into a boolean field instead of being branched on (`flag = a || x >= n`)
+            stored = []
+            for f in bmap0.values():
+                formula_lits(f, stored)
+            for l in list(s2.pc[n0:]) + [l for l in stored if l[0] in ("le", "eq", "ne")]:
                 if l[0] in ("le", "eq", "ne"):
                     ats = atoms_deep(l[1])
                     if ats & statesyms and all(a in statesyms or a[0] in ("len",) for a in ats):
@@ -783,7 +794,55 @@ def validated_recurrence(I, fn_name):
             continue
         # the guard is the first literal of the back-edge path (while cond)
         return {"atom": atom, "init": init, "facts": facts, "guard": facts[:1], "step": new[atom], "loop": rep.span,
-                "returns": rep.exit_kinds}
+                "returns": rep.exit_kinds, "final": Lin.atom(atom), "form": "while"}
+    # the same recurrence written with the test at the end of the body (`loop { checks; o += L; if o >= len { break } }`)
+    for rep in I.loop_reports:
+        if rep.fn != fn_name or rep.kind != "loop" or len(rep.carried) != 1 or len(rep.backs) != 1:
+            continue
+        atom, init = rep.carried[0]
+        delta, new = rep.backs[0]
+        if new.get(atom) is None:
+            continue
+        brks = [d for k, _, d in rep.exit_kinds if k == "brk"]
+        if not brks or any(k not in ("ret", "brk") for k, _, _ in rep.exit_kinds):
+            continue
+        back = [l for l in delta if l[0] in ("le", "eq", "ne")]
+        keyset = lambda ls: {(l[0], l[1].key()) for l in ls if l[0] in ("le", "eq", "ne")}
+        common = None
+        cont = None
+        okd = True
+        for d in brks:
+            cm = [l for l in back if (l[0], l[1].key()) in keyset(d)]
+            only_back = [l for l in back if (l[0], l[1].key()) not in keyset(d)]
+            only_brk = [l for l in d if l[0] in ("le", "eq", "ne") and (l[0], l[1].key()) not in keyset(back)]
+            if len(only_back) != 1 or len(only_brk) != 1 or only_back[0][0] != "le":
+                okd = False
+                break
+            c = only_back[0]
+            if not (solver.entails([c], f_not(flit(only_brk[0]))) and solver.entails([only_brk[0]], f_not(flit(c)))):
+                okd = False
+                break
+            if cont is not None and cont[1].key() != c[1].key():
+                okd = False
+                break
+            cont = c
+            common = cm if common is None else [l for l in common if (l[0], l[1].key()) in keyset(cm)]
+        if not okd or cont is None:
+            continue
+        # cont is G(step(o)) for a guard G(x): x + R <= 0 with R independent of the chain point
+        R = cont[1] - new[atom]
+        dep = False
+        for a in atoms_deep(R):
+            if a == atom or (a[0] == "byte" and atom in atoms_deep(Lin.from_key(a[2]))):
+                dep = True
+        if dep:
+            continue
+        guard = ("le", Lin.atom(atom) + R)
+        if not solver.entails(list(rep.inv_lits), flit(guard)):
+            continue      # the guard must hold at every visit of the loop head (inductive invariant found by the loop analysis)
+        facts = [guard] + [l for l in common if (l[0], l[1].key()) != (guard[0], guard[1].key())]
+        return {"atom": atom, "init": init, "facts": facts, "guard": [guard], "step": new[atom], "loop": rep.span,
+                "returns": rep.exit_kinds, "final": new[atom], "form": "do-while"}
     return None
 
 
